@@ -146,6 +146,71 @@ def oracle(g, obs):
     return bad
 
 
+def two_signal_waiter_part(ctx):
+    """A node waiting for TWO names: a pipeline's end signal that arrives late, and a signal a loop re-emits every round.  When the
+    late one arrives the loop's producer is ready again in the same step: the waiter is put off - whatever the order in which it
+    lists the names, the length of the pipeline, the node order.  Observed on AsyncRunner with bodies that really suspend: nodes
+    of one superstep overlap in time, supersteps do not."""
+    import asyncio
+    from hypergraph import END, AsyncRunner, Graph
+    from hypergraph.nodes import FunctionNode, RouteNode
+    rng = ctx.rng
+    n = 0
+    combos = [(L_, o_) for L_ in (1, 2, 3, 4) for o_ in (("prepared", "polled"), ("polled", "prepared"))]
+    for rep in range(ctx.n(8, 64)):
+        (L, order), bound = combos[rep % len(combos)], rng.randint(3, 6)
+        ev = []
+
+        def body(name, fn):
+            async def f(**kw):
+                ev.append(("start", name))
+                for _j in range(3):
+                    await asyncio.sleep(0)
+                ev.append(("end", name))
+                return fn(**kw)
+            return f
+        nodes = []
+        prev = "x"
+        for j in range(L):
+            out = f"s{j}"
+            ns = {}
+            exec(f"async def st{j}({prev}):\n    return await _b({prev}={prev})\n", {"_b": body(f"st{j}", lambda **kw: 1)}, ns)  # noqa: S102
+            nodes.append(FunctionNode(ns[f"st{j}"], name=f"st{j}", output_name=out, emit=("prepared",) if j == L - 1 else ()))
+            prev = out
+        ns = {}
+        exec("async def poll(i):\n    return await _b(i=i)\n", {"_b": body("poll", lambda i: i + 1)}, ns)  # noqa: S102
+        nodes.append(FunctionNode(ns["poll"], name="poll", output_name="i", emit=("polled",)))
+        ns = {}
+        exec(f"def more(i):\n    return 'poll' if i < {bound} else END\n", {"END": END}, ns)  # noqa: S102
+        nodes.append(RouteNode(ns["more"], targets=["poll", END], name="more"))
+        ns = {}
+        exec("async def report(x):\n    return await _b(x=x)\n", {"_b": body("report", lambda x: x)}, ns)  # noqa: S102
+        nodes.append(FunctionNode(ns["report"], name="report", output_name="report_out", wait_for=order))
+        rng.shuffle(nodes)
+        case = {"family": "two_signal_waiter", "pipeline": L, "bound": bound, "wait_for": list(order), "node_order": [m.name for m in nodes]}
+        try:
+            asyncio.run(AsyncRunner().run(Graph(nodes), {"x": 7, "i": 0}, max_iterations=60))
+        except Exception as e:  # noqa: BLE001
+            ctx.violation("oracle", f"two-signal waiter: the run raised {type(e).__name__}: {str(e)[:100]}", case=case)
+            continue
+        n += 1
+        open_, bad = set(), None
+        for kind, name in ev:
+            if kind == "start":
+                if name == "report" and open_ & {"poll", f"st{L - 1}"}:
+                    bad = f"report started while {sorted(open_ & {'poll', f'st{L - 1}'})} - producer(s) of a name it waits for - were executing"
+                if name in ("poll", f"st{L - 1}") and "report" in open_:
+                    bad = f"{name}, a producer of a name report waits for, started while report was executing"
+                open_.add(name)
+            else:
+                open_.discard(name)
+        if bad:
+            ctx.violation("oracle", f"{bad} (same superstep; wait_for={order}, pipeline of {L}, loop bound {bound})", case=case)
+        elif ("start", "report") not in ev and bound >= L:
+            pass    # (whether the waiter runs at all depends on the loop still emitting when the pipeline ends: not judged)
+    return n
+
+
 def value_signal_part(ctx):
     """wait_for naming a DATA output (allowed: "an emit or output_name"): a loop whose gate waits for a per-iteration status
     value.  Every production of the name counts - the gate runs once per iteration and the loop reaches its bound - whether the
@@ -274,7 +339,7 @@ def run(ctx):
                 msgs.append(f"consume (waits for both signals) ran {count(obs, 'consume')} times; both signals were produced together {exp} times")
         return msgs
 
-    n_value_signal = value_signal_part(ctx)
+    n_value_signal = value_signal_part(ctx) + two_signal_waiter_part(ctx)
     obs_all, res = engine.run_cases(ctx, "C17", cases, extra=extra)
     ctx.coverage.update(
         evaluations=len(cases) + n_value_signal, coq_checks=res["n"], distinct_nontrivial=len(nontrivial),
